@@ -518,12 +518,15 @@ func dominatesAllPreds(d, b *ssa.BasicBlock) bool { return true }
 
 // K3: counters and classification advance in the completion clause as unconditional statements.
 func ruleK3(c *Ctx) {
-	type want struct{ fn, counter string; extra []string }
+	type want struct {
+		fn, counter string
+		extra       []string
+	}
 	for _, w := range []want{
-		{"ParseAllContactValues", "c.N", []string{"c.MaxExpires", "c.MinExpires"}},
-		{"ParseAllPAIValues", "c.N", nil},
-		{"ParseAllURIParams", "l.N", []string{"p.T = URIParamResolve(p.Param.Name.Get(buf))", "l.Types |= p.T", "vNo++"}},
-		{"ParseAllURIHdrs", "l.N", []string{"vNo++"}},
+		{"ParseAllContactValues", "@c.N++", []string{"if @c.MaxExpires < @p.Expires { @c.MaxExpires = @p.Expires }", "if @c.MinExpires > @p.Expires { @c.MinExpires = @p.Expires }"}},
+		{"ParseAllPAIValues", "@c.N++", nil},
+		{"ParseAllURIParams", "@l.N++", []string{"@p.T = URIParamResolve(@p.Param.Name.Get(@b))", "@l.Types |= @p.T", "@v++"}},
+		{"ParseAllURIHdrs", "@l.N++", []string{"@v++"}},
 	} {
 		fd := c.Decls[w.fn]
 		if fd == nil {
@@ -546,26 +549,17 @@ func ruleK3(c *Ctx) {
 				return true
 			}
 			found = true
-			top := map[string]bool{}
-			for _, s := range cl.Body {
-				top[c.src(s)] = true
-				if is, ok := s.(*ast.IfStmt); ok {
-					// conditional updates are fine when the condition does not involve the slot or the capacity
-					_ = is
-				}
-			}
-			c.check(top[w.counter+"++"], "K3", w.fn+":"+w.counter+"++", cl.Pos(), "the value counter is incremented as an unconditional statement of the completion clause")
-			for _, ex := range w.extra {
-				okx := top[ex]
-				if !okx {
-					// Min/Max updates are `if c.X < pf.Expires { c.X = pf.Expires }` top-level statements
-					for s := range top {
-						if strings.HasPrefix(s, "if "+ex) || strings.Contains(s, ex+" = ") {
-							okx = true
-						}
+			hasTop := func(pat string) bool {
+				for _, s := range cl.Body {
+					if patEq(c.src(s), pat) {
+						return true
 					}
 				}
-				c.check(okx, "K3", w.fn+":"+ex, cl.Pos(), "completion clause performs `"+ex+"` at top level (not under a slot/capacity test)")
+				return false
+			}
+			c.check(hasTop(w.counter), "K3", w.fn+":N++", cl.Pos(), "the value counter is incremented as an unconditional statement of the completion clause")
+			for i, ex := range w.extra {
+				c.check(hasTop(ex), "K3", fmt.Sprintf("%s:update%d", w.fn, i+1), cl.Pos(), "completion clause performs `"+ex+"` at top level (not under a slot/capacity test)")
 			}
 			return true
 		})
@@ -582,15 +576,14 @@ func ruleK3(c *Ctx) {
 			seenInc := false
 			for _, s := range cl.Body {
 				src := c.src(s)
-				if src == "c.N++" {
+				if patEq(src, "@c.N++") {
 					seenInc = true
 				}
 				if strings.Contains(src, ".Reset()") {
 					break
 				}
 				if is, ok := s.(*ast.IfStmt); ok && seenInc {
-					cond := strings.ReplaceAll(c.src(is.Cond), " ", "")
-					if strings.Contains(cond, "c.N==1") && strings.Contains(cond, "len(c.Vals)==0") && strings.Contains(c.src(is.Body), "c.first = *pf") {
+					if patInAll(c.src(is), "@c.N == 1", "len(@c.Vals) == 0", "@c.first = *@p") {
 						okFirst = true
 					}
 				}
@@ -602,7 +595,7 @@ func ruleK3(c *Ctx) {
 	// HNo++ exactly on the not-resumed entry
 	if fd := c.Decls["ParseHdrLine"]; fd != nil {
 		s := c.src(fd.Body)
-		c.check(strings.Contains(s, "if h.state != hContact { contacts.HNo++ }") && strings.Contains(s, "if h.state != hPAI { pais.HNo++ }"), "K3", "HNo", fd.Pos(),
+		c.check(patIn(s, "if @h.state != hContact { @c.HNo++ }") && patIn(s, "if @h.state != hPAI { @c.HNo++ }"), "K3", "HNo", fd.Pos(),
 			"the header counters HNo advance exactly when the header is entered for the first time (state != resumed state)")
 	}
 }
